@@ -150,21 +150,114 @@ def is_zeros_like(out, mps):
 
 
 # ---------------------------------------------------------------------------------------------
-def check_canonical(ctx, tt, mpmath, mps, kind, right, chi, tol, qr, normalise, mask, add):
-    """one call of left/right_canonical_form; returns nothing, reports violations"""
+# Caller-side containers.  qecsim documents an MPS/MPO as "list of numpy.array (4d)", but a tensor-network column
+# tn[:, col] (what mps2d.contract hands to these functions, and what it returns as a partial contraction) is a 1-d NumPy
+# object array, usually a *view* of the 2-d network.  Every function is exercised with every container the unchanged
+# tree accepts, and after every call the container must still hold the very same tensor objects, bit for bit.
+CONTAINERS = ('list', 'tuple', 'objarray', 'column', 'row', 'strided')
+MASK_CONTAINERS = ('list', 'tuple', 'boolarray')
+
+
+def tensor_bits_equal(t, s):
+    return (t is None and s is None) or (t is not None and s is not None and type(t) is type(s) and t.shape == s.shape
+                                         and t.dtype == s.dtype and t.tobytes() == s.tobytes())
+
+
+class Cont:
+    """A container of kind `ckind` holding the tensor objects `tensors`; `obj` is what is handed to qecsim.  For the view
+    kinds `base` is the owning array (a small 2-d network / a longer 1-d array) whose other cells hold sentinel tensors."""
+
+    def __init__(self, tensors, ckind, base=None, index=None):
+        self.ckind = ckind
+        self.snap = [None if t is None else t.copy() for t in tensors]
+        self.build(list(tensors), base, index)
+
+    def build(self, tensors, base=None, index=None):
+        L, ckind = len(tensors), self.ckind
+        self.tensors = tensors
+        self.base = None
+        if base is not None:      # an existing array: obj is the array itself (index None) or the view base[index]
+            self.base, self.obj = base, (base if index is None else base[index])
+        elif ckind == 'list':
+            self.obj = list(tensors)
+        elif ckind == 'tuple':
+            self.obj = tuple(tensors)
+        else:
+            shape, index = {'objarray': ((L,), slice(None)), 'column': ((L, 3), (slice(None), 1)),
+                            'row': ((3, L), (1, slice(None))), 'strided': ((2 * L + 1,), slice(1, None, 2))}[ckind]
+            arr = np.empty(shape, dtype=object)
+            for k, idx in enumerate(np.ndindex(*shape)):
+                arr[idx] = np.full((1, 1, 1, 1), float(k + 2))     # sentinels (overwritten below inside the view)
+            view = arr if ckind == 'objarray' else arr[index]
+            for i, t in enumerate(tensors):
+                view[i] = t
+            self.obj = view
+            if ckind != 'objarray':
+                self.base = arr
+        if self.base is not None:
+            self.cells = [(idx, self.base[idx]) for idx in np.ndindex(*self.base.shape)]
+            self.cell_snap = [None if c is None else c.copy() for _, c in self.cells]
+        self.obj_type, self.obj_len = type(self.obj), len(self.obj)
+
+    def rebuild(self):
+        """after a detected modification: a fresh container of the same kind holding fresh copies of the original tensors"""
+        self.build([None if t is None else t.copy() for t in self.snap])
+
+    def modified(self):
+        """None, or a description of how the caller's container / tensors differ from what was handed over"""
+        if type(self.obj) is not self.obj_type or len(self.obj) != self.obj_len:
+            return 'container changed type or length'
+        for i, t in enumerate(self.tensors):
+            if self.obj[i] is not t:
+                return 'container element %d was replaced by another object' % i
+        if self.base is not None:
+            for (idx, c), cs in zip(self.cells, self.cell_snap):
+                if self.base[idx] is not c:
+                    return 'cell %s of the array owning the view was replaced' % (idx,)
+                if not tensor_bits_equal(c, cs):
+                    return 'contents of the tensor in cell %s of the owning array changed' % (idx,)
+        for i, (t, sn) in enumerate(zip(self.tensors, self.snap)):
+            if not tensor_bits_equal(t, sn):
+                return 'contents of tensor %d changed' % i
+        return None
+
+
+def wrap_mask(mask, mkind):
+    if mask is None:
+        return None
+    return {'list': list, 'tuple': tuple, 'boolarray': lambda m: np.array(m, dtype=bool)}[mkind](mask)
+
+
+def input_check(ctx, name, cont, rep, mask=None, cmask=None):
+    """input not modified: container, tensor objects, tensor contents and the mask; restores the container if it was"""
+    bad = cont.modified()
+    if bad is None and mask is not None and (len(cmask) != len(mask) or [bool(b) for b in cmask] != [bool(b) for b in mask]):
+        bad = 'the mask was modified'
+    if bad:
+        ctx.violation('input-modified', '%s modified its input (%s container): %s' % (name, cont.ckind, bad), rep)
+        cont.rebuild()
+    return bad
+
+
+# ---------------------------------------------------------------------------------------------
+def check_canonical(ctx, tt, mpmath, mps, kind, right, chi, tol, qr, normalise, mask, add, cont=None, mkind='list'):
+    """one call of left/right_canonical_form on the container `cont` (default: a list of the tensors `mps`); returns
+    nothing, reports violations.  All expected values below come from the snapshot taken before the call."""
     fn = tt.mps.right_canonical_form if right else tt.mps.left_canonical_form
     name = 'right_canonical_form' if right else 'left_canonical_form'
-    rep = {'function': name, 'mps': hexs(mps), 'kind': kind, 'chi': chi, 'tol': tol, 'qr': qr, 'normalise': normalise,
-           'mask': None if mask is None else [bool(b) for b in mask]}
-    inp = [None if t is None else t.copy() for t in mps]
+    cont = cont or Cont(mps, 'list')
+    rep = {'function': name, 'mps': hexs(cont.snap), 'kind': kind, 'chi': chi, 'tol': tol, 'qr': qr, 'normalise': normalise,
+           'mask': None if mask is None else [bool(b) for b in mask], 'container': cont.ckind, 'mask_container': mkind}
+    cmask = wrap_mask(mask, mkind)
     try:
-        res = fn(mps, chi=chi, tol=tol, qr=qr, normalise=normalise, mask=mask)
+        res = fn(cont.obj, chi=chi, tol=tol, qr=qr, normalise=normalise, mask=cmask)
     except Exception as e:  # noqa
         ctx.violation('exception', '%s raised %s: %s' % (name, type(e).__name__, str(e)[:100]), rep)
+        input_check(ctx, name, cont, rep, mask, cmask)
         return
     out, norm = (res if normalise else (res, None))
-    if any((a is None) != (b is None) or (a is not None and not np.array_equal(a, b)) for a, b in zip(mps, inp)):
-        ctx.violation('input-mutated', name + ' modified its input tensors', rep)
+    input_check(ctx, name, cont, rep, mask, cmask)
+    mps = inp = cont.snap
     if normalise and not isinstance(norm, mpmath.mpf):
         ctx.violation('norm-type', 'norm is not an mpmath.mpf', rep)
     if len(out) != len(mps) or any((o is None) != (t is None) for o, t in zip(out, mps)):
@@ -183,9 +276,10 @@ def check_canonical(ctx, tt, mpmath, mps, kind, right, chi, tol, qr, normalise, 
         return
     ro = [t for t in out if t is not None]
     ri = [t for t in mps if t is not None]
-    if any(o.ndim != 4 for o in ro) or any(o.shape[1] != t.shape[1] or o.shape[3] != t.shape[3] for o, t in zip(ro, ri)) or \
+    if any(o.ndim != 4 or 0 in o.shape for o in ro) or \
+            any(o.shape[1] != t.shape[1] or o.shape[3] != t.shape[3] for o, t in zip(ro, ri)) or \
             any(x.shape[2] != y.shape[0] for x, y in zip(ro, ro[1:])):
-        ctx.violation('shapes', 'physical legs changed or bonds inconsistent', dict(rep, out=shape_enc(out)))
+        ctx.violation('shapes', 'physical legs changed, bonds inconsistent or of dimension 0', dict(rep, out=shape_enc(out)))
         return
     st_out = dense_state(out)
     # ---- zero state
@@ -259,22 +353,26 @@ def check_canonical(ctx, tt, mpmath, mps, kind, right, chi, tol, qr, normalise, 
                 ctx.violation('state', 'represented tensor changed by %.3g (scale %.3g)' % (err, sc), rep)
 
 
-def check_truncate(ctx, tt, mpmath, mps, kind, chi, tol, mask, add):
-    rep = {'function': 'truncate', 'mps': hexs(mps), 'kind': kind, 'chi': chi, 'tol': tol,
-           'mask': None if mask is None else [bool(b) for b in mask]}
-    inp = [None if t is None else t.copy() for t in mps]
+def check_truncate(ctx, tt, mpmath, mps, kind, chi, tol, mask, add, cont=None, mkind='list'):
+    cont = cont or Cont(mps, 'list')
+    rep = {'function': 'truncate', 'mps': hexs(cont.snap), 'kind': kind, 'chi': chi, 'tol': tol,
+           'mask': None if mask is None else [bool(b) for b in mask], 'container': cont.ckind, 'mask_container': mkind}
+    cmask = wrap_mask(mask, mkind)
+    given = cont.obj
     try:
-        out, norm = tt.mps.truncate(mps, chi=chi, tol=tol, mask=mask)
+        out, norm = tt.mps.truncate(given, chi=chi, tol=tol, mask=cmask)
     except Exception as e:  # noqa
         ctx.violation('exception', 'truncate raised %s: %s' % (type(e).__name__, str(e)[:100]), rep)
+        input_check(ctx, 'truncate', cont, rep, mask, cmask)
         return
-    if any((x is None) != (y is None) or (x is not None and not np.array_equal(x, y)) for x, y in zip(mps, inp)):
-        ctx.violation('input-mutated', 'truncate modified its input tensors', rep)
-    bd = tt.mps.bond_dimension(mps)
+    same_object = out is given
+    input_check(ctx, 'truncate', cont, rep, mask, cmask)
+    mps = cont.snap
+    bd = max([t.shape[0] for t in mps if t is not None] + [0])
     noop = not (len(mps) and (tol or (chi and chi < bd)) and (mask is None or any(mask)))
     # the discrete decision and the shapes, against the model
     if not tol:
-        ident = out is mps
+        ident = same_object
         zl = (not ident) and is_zeros_like(out, mps)
         if not zl:
             add('truncate shapes', 'truncate %s %s %s' % (shape_enc(mps), '_' if chi is None else str(chi), mask_enc(mask)),
@@ -282,13 +380,13 @@ def check_truncate(ctx, tt, mpmath, mps, kind, chi, tol, mask, add):
     # identity when nothing is to be done
     no_bond_exceeds = (not chi) or all(t is None or t.shape[0] <= chi for t in mps)
     if (not tol and no_bond_exceeds) or (mask is not None and not any(mask)) or not len(mps):
-        if out is not mps or type(norm) is not float or norm != 1.0:
+        if not same_object or type(norm) is not float or norm != 1.0:
             ctx.violation('truncate-identity', 'truncate is not the identity (same object, norm 1.0) although nothing '
                           'may be truncated', dict(rep, norm=str(norm)))
         return
-    if noop != (out is mps):
+    if noop != (same_object):
         ctx.violation('truncate-guard', 'truncate guard decision differs from its documentation', rep)
-    if out is mps:
+    if same_object:
         return
     if len(out) != len(mps) or any((o is None) != (t is None) for o, t in zip(out, mps)):
         ctx.violation('none-pattern', 'empty sites not preserved', rep)
@@ -301,9 +399,10 @@ def check_truncate(ctx, tt, mpmath, mps, kind, chi, tol, mask, add):
     nf = float(norm)
     ro = [t for t in out if t is not None]
     ri = [t for t in mps if t is not None]
-    if any(o.ndim != 4 for o in ro) or any(o.shape[1] != t.shape[1] or o.shape[3] != t.shape[3] for o, t in zip(ro, ri)) or \
+    if any(o.ndim != 4 or 0 in o.shape for o in ro) or \
+            any(o.shape[1] != t.shape[1] or o.shape[3] != t.shape[3] for o, t in zip(ro, ri)) or \
             any(x.shape[2] != y.shape[0] for x, y in zip(ro, ro[1:])):
-        ctx.violation('shapes', 'physical legs changed or bonds inconsistent', dict(rep, out=shape_enc(out)))
+        ctx.violation('shapes', 'physical legs changed, bonds inconsistent or of dimension 0', dict(rep, out=shape_enc(out)))
         return
     zl = is_zeros_like(out, mps)
     if (nf == 0.0) != zl:
@@ -357,6 +456,169 @@ def check_truncate(ctx, tt, mpmath, mps, kind, chi, tol, mask, add):
             ctx.violation('truncate-norm', 'returned norm %.12g is not the norm of the state %.12g' % (nf, nin), rep)
 
 
+def pairwise_expected(le, ri):
+    """contract_pairwise of one site by tensordot (independent of qecsim): sum over left.E = right.W"""
+    if le is None:
+        return ri
+    if ri is None:
+        return le
+    x = np.transpose(np.tensordot(le, ri, axes=([1], [3])), (0, 3, 4, 1, 5, 2))  # n s w N E S -> n N E s S w
+    return x.reshape((le.shape[0] * ri.shape[0], ri.shape[1], le.shape[2] * ri.shape[2], le.shape[3]))
+
+
+def ladder_expected(mps):
+    """contract_ladder of a contiguous, bond-consistent run by tensordot: (n, e1*..*eL, sL, w1*..*wL)"""
+    acc = None
+    for t in mps:
+        if t is None:
+            continue
+        if acc is None:
+            acc = t
+        else:
+            x = np.transpose(np.tensordot(acc, t, axes=([2], [0])), (0, 1, 3, 4, 2, 5))  # n e w E S W -> n e E S w W
+            acc = x.reshape((acc.shape[0], acc.shape[1] * t.shape[1], t.shape[2], acc.shape[3] * t.shape[3]))
+    return acc
+
+
+def ladder_ok(mps):
+    """a single contiguous run of tensors with matching bonds"""
+    pat = ''.join('0' if t is None else '1' for t in mps).strip('0')
+    ts = [t for t in mps if t is not None]
+    return bool(ts) and '0' not in pat and all(x.shape[2] == y.shape[0] for x, y in zip(ts, ts[1:]))
+
+
+def check_pairwise(ctx, tt, left, right, lck, rck):
+    """contract_pairwise / zeros_like / contract_ladder / inner_product on caller containers: inputs not modified, results
+    equal to the tensordot evaluation whatever the container"""
+    lc, rc = Cont(left, lck), Cont(right, rck)
+    rep = {'function': 'contract_pairwise', 'mps': hexs(left), 'right': hexs(right), 'container': lck, 'right_container': rck}
+    try:
+        out = tt.mps.contract_pairwise(lc.obj, rc.obj)
+    except Exception as e:  # noqa
+        ctx.violation('exception', 'contract_pairwise raised %s: %s' % (type(e).__name__, str(e)[:100]), rep)
+        return
+    input_check(ctx, 'contract_pairwise (left argument)', lc, rep)
+    input_check(ctx, 'contract_pairwise (right argument)', rc, rep)
+    want = [pairwise_expected(a, b) for a, b in zip(lc.snap, rc.snap)]
+    sc = [1.0 if w is None else max(float(np.linalg.norm(a)) if a is not None else 1.0, 0.0) *
+          (float(np.linalg.norm(b)) if b is not None else 1.0) for w, a, b in zip(want, lc.snap, rc.snap)]
+    if len(out) != len(want) or any((o is None) != (w is None) or (o is not None and (
+            o.shape != w.shape or float(np.abs(o - w).max()) > 1e-12 * x)) for o, w, x in zip(out, want, sc)):
+        ctx.violation('pairwise', 'contract_pairwise differs from the site-by-site contraction over left.E = right.W', rep)
+        return
+    for c, nm in ((lc, 'mps'), (rc, 'right')):
+        z = tt.mps.zeros_like(c.obj)
+        input_check(ctx, 'zeros_like', c, dict(rep, function='zeros_like', mps=rep[nm], container=c.ckind))
+        if not is_zeros_like(z, c.snap):
+            ctx.violation('zeros-like', 'zeros_like does not give zero tensors of bond dimension 1 with the same physical legs',
+                          dict(rep, function='zeros_like', mps=rep[nm], container=c.ckind))
+    if not ladder_ok(want):
+        return
+    pc = Cont(want, lck)
+    prep = {'function': 'contract_ladder', 'mps': hexs(want), 'container': lck}
+    try:
+        lad = tt.mps.contract_ladder(pc.obj)
+    except Exception as e:  # noqa
+        ctx.violation('exception', 'contract_ladder raised %s: %s' % (type(e).__name__, str(e)[:100]), prep)
+        return
+    input_check(ctx, 'contract_ladder', pc, prep)
+    wl = ladder_expected(want)
+    lsc = scale_of(want)
+    if lad.shape != wl.shape or float(np.abs(lad - wl).max()) > 1e-10 * lsc:
+        ctx.violation('ladder', 'contract_ladder differs from the bond-by-bond contraction', prep)
+        return
+    if wl.size == 1:
+        irep = dict(rep, function='inner_product')
+        try:
+            ip = tt.mps.inner_product(lc.obj, rc.obj)
+        except Exception as e:  # noqa
+            ctx.violation('exception', 'inner_product raised %s: %s' % (type(e).__name__, str(e)[:100]), irep)
+            return
+        input_check(ctx, 'inner_product (bra)', lc, irep)
+        input_check(ctx, 'inner_product (ket)', rc, irep)
+        if abs(float(ip) - float(wl.flatten()[0])) > 1e-10 * lsc:
+            ctx.violation('inner-product', 'inner_product %r differs from the contraction %r' % (float(ip), float(wl.flatten()[0])),
+                          irep)
+
+
+def gen_partner(rng, left, typ):
+    """an MPS/MPO whose W legs match the E legs of `left` site by site (None allowed where pairwise contraction copies)"""
+    n = len(left)
+    a, b = run_of(left)
+    ket = typ == 'bra' and left[a].shape[0] == 1 and left[b - 1].shape[2] == 1 and rng.random() < 0.7
+    rb = [rng.randint(1, 3) for _ in range(n + 1)]
+    if ket:
+        rb[a] = rb[b] = 1
+    right = []
+    for i, t in enumerate(left):
+        if t is None:
+            right.append(None if (ket or rng.random() < 0.7) else
+                         np.array([rng.gauss(0, 1) for _ in range(rb[i] * 2 * rb[i + 1] * 1)]).reshape((rb[i], 2, rb[i + 1], 1)))
+        elif not ket and rng.random() < 0.08:
+            right.append(None)
+        else:
+            shape = (rb[i], 1 if ket else rng.randint(1, 3), rb[i + 1], t.shape[1])
+            right.append(np.array([rng.gauss(0, 1) for _ in range(int(np.prod(shape)))]).reshape(shape))
+    return right
+
+
+def check_network(ctx, tt, mpmath, tn, label, add, rng, mask_containers):
+    """every column of a 2-d network, passed as the view tn[:, c], and partial contractions as returned by
+    mps2d.contract (1-d object arrays; a one-column partial contraction is itself a view of the network): the whole
+    network must be untouched afterwards and the usual contracts must hold"""
+    def calls(cont, tensors, kind):
+        for _ in range(2):
+            chi = rng.choice([None, 1, 2, 3, 4])
+            tol = rng.choice([None, None, 1e-8])
+            qr = rng.random() < 0.3
+            if qr:
+                chi, tol = None, None
+            mask = None if rng.random() < 0.6 else [rng.random() < 0.6 for _ in tensors]
+            check_canonical(ctx, tt, mpmath, tensors, kind, rng.random() < 0.5, chi, tol, qr, rng.random() < 0.6, mask, add,
+                            cont=cont, mkind=rng.choice(mask_containers))
+            ctx.count((label, kind, 'cf', chi, tol, qr, mask_enc(mask)), True, 'network column/partial contraction')
+        for _ in range(2):
+            bd = max(t.shape[0] for t in tensors if t is not None)
+            chi = rng.choice([1, 2, max(bd - 1, 1), max(bd // 2, 1), bd])
+            mask = None if rng.random() < 0.6 else [rng.random() < 0.6 for _ in tensors]
+            check_truncate(ctx, tt, mpmath, tensors, kind, chi, rng.choice([None, None, 1e-8]), mask, add, cont=cont,
+                           mkind=rng.choice(mask_containers))
+            ctx.count((label, kind, 'truncate', chi, mask_enc(mask)), True, 'network column/partial contraction')
+
+    ncols = tn.shape[1]
+    guard = Cont(list(tn[:, 0]), 'column', base=tn, index=(slice(None), 0))     # watches every cell of the network
+    for c in range(ncols):
+        tensors = list(tn[:, c])
+        if ladder_ok(tensors):
+            calls(Cont(tensors, 'column', base=tn, index=(slice(None), c)), tensors, 'network-column')
+    if guard.modified():
+        return      # reported above by the call that did it; the network is no longer the one that was built
+    for start, stop, step in [(None, k, None) for k in range(1, ncols)] + [(-1, k, -1) for k in range(ncols - 2, -1, -1)]:
+        prep = {'function': 'mps2d.contract', 'network': label, 'start': start, 'stop': stop, 'step': step,
+                'chi': rng.choice([None, 4, 6])}
+        part, mult = tt.mps2d.contract(tn, chi=prep['chi'], start=start, stop=stop, step=step)
+        bad = guard.modified()
+        if bad:
+            ctx.violation('input-modified', 'a partial contraction by mps2d.contract (which hands the columns tn[:, c] to '
+                          'contract_pairwise / truncate) modified the network: ' + bad, prep)
+            return
+        if part is None or not isinstance(part, np.ndarray) or part.dtype != object or part.ndim != 1:
+            ctx.violation('partial-type', 'a partial contraction is not the documented 1-d numpy array of tensors',
+                          {'network': label, 'start': start, 'stop': stop, 'step': step, 'type': type(part).__name__})
+            continue
+        tensors = list(part)
+        if not ladder_ok(tensors) or int(np.prod([t.shape[1] * t.shape[3] for t in tensors])) > 70000:
+            continue
+        if np.shares_memory(part, tn):      # the one-column partial contraction is the network column itself
+            col = 0 if step is None else ncols - 1
+            cont = Cont(tensors, 'column', base=tn, index=(slice(None), col))
+        else:
+            cont = Cont(tensors, 'objarray', base=part)
+        calls(cont, tensors, 'partial-contraction')
+        if guard.modified():
+            return
+
+
 def run(ctx):
     import mpmath
     from qecsim import tensortools as tt
@@ -364,7 +626,10 @@ def run(ctx):
     ctx.rule = ('generated MPS/MPO: run length 1-7 with 0-2 leading/trailing None, physical dims 1-4 (bra/ket/MPO), bonds '
                 '1-6, outer legs 1-3; entries gaussian / uniform / rank-deficient / small ints / scaled 1e+-25 / a zero '
                 'tensor / structurally zero state / all zero; left and right canonical forms (QR, SVD, chi, tol, masks, '
-                'normalise) and truncate; nontrivial = distinct case with >= 3 sites and some bond > chi')
+                'normalise) and truncate; every MPS handed over in one of the containers list / tuple / 1-d object array / '
+                'column, row or strided view of an object array (masks: list / tuple / bool array), the container reused by '
+                'all calls and checked unmodified after each; columns and partial contractions of planar networks 2x2..4x3 '
+                '(thorough ..5x5) as views of the network; nontrivial = distinct case with >= 3 sites and some bond > chi')
     ctx.props_obligations()
     ctx.trusted.append('LAPACK QR/SVD via SciPy meet their contracts (checked numerically on every observed call through '
                        'the isometry and state residuals); numpy float linear algebra in the harness (einsum/tensordot/svd)')
@@ -399,22 +664,40 @@ def run(ctx):
     ctx.exhaustive = False
 
     # ---- 1. generated MPS -------------------------------------------------------------------------
+    # every container kind below is accepted by every function of the unchanged tree (probed by hand on /repo with all six
+    # kinds and all three mask kinds: no exception), so the whole product is inside the domain
+    containers, mask_containers = ('list',) + CONTAINERS, MASK_CONTAINERS
+    ctx.notes.append('containers: every MPS/MPO is handed over as list / tuple / owning 1-d object array / column view '
+                     'tn[:, c] / row view / strided view of a 1-d object array, masks as list / tuple / numpy bool array; the '
+                     'unchanged tree accepts all of them in every function (none left out); after every call the container '
+                     'must hold the same tensor objects with bit-identical contents (key input-modified), one container '
+                     'object is reused for all calls on a generated MPS, and all expected values are computed from a '
+                     'snapshot taken before the first call')
     for it in range(ctx.pick(2500, 25000)):
         mps, kind, typ = gen_mps(rng, maxlen=ctx.pick(6, 7) if it % 5 else 7)
         a, b = run_of(mps)
         L = b - a
-        bd = tt.mps.bond_dimension(mps)
+        # the caller's container: one object per generated MPS, reused by every call below (and restored by input_check if
+        # a call modified it); the mask container varies per call
+        ckind = rng.choice(containers)
+        cont = Cont(mps, ckind)
+        crep = {'mps': hexs(mps), 'container': ckind}
+        bd = tt.mps.bond_dimension(cont.obj)
+        input_check(ctx, 'bond_dimension', cont, dict(crep, function='bond_dimension'))
         add('bond_dimension', 'bond ' + shape_enc(mps), str(bd), None)
         if bd != max([t.shape[0] for t in mps if t is not None] + [0]) or type(bd) is not int:
-            ctx.violation('bond-dimension', 'bond_dimension is not the largest north dimension', {'mps': shape_enc(mps)})
+            ctx.violation('bond-dimension', 'bond_dimension is not the largest north dimension',
+                          {'mps': shape_enc(mps), 'container': ckind})
         # reverse
-        rv = tt.mps.reverse(mps)
+        rv = tt.mps.reverse(cont.obj)
+        input_check(ctx, 'reverse', cont, dict(crep, function='reverse'))
         add('reverse shapes', 'reverse ' + shape_enc(mps), shape_enc(rv), None)
         rr = tt.mps.reverse(rv)
-        if any((x is None) != (y is None) or (x is not None and not np.array_equal(x, y)) for x, y in zip(rr, mps)) or \
+        if len(rv) != len(mps) or len(rr) != len(mps) or \
+                any((x is None) != (y is None) or (x is not None and not np.array_equal(x, y)) for x, y in zip(rr, mps)) or \
                 any((x is None) != (y is None) or (x is not None and not np.array_equal(np.transpose(x, (2, 1, 0, 3)), y))
                     for x, y in zip(rv, reversed(mps))):
-            ctx.violation('reverse', 'reverse is not the mirror image / not an involution', {'mps': hexs(mps)})
+            ctx.violation('reverse', 'reverse is not the mirror image / not an involution', crep)
         maxb = max([max(t.shape[0], t.shape[2]) for t in mps if t is not None] + [1])
         ntv = L >= 3
         for rep_i in range(3):
@@ -426,19 +709,43 @@ def run(ctx):
             normalise = rng.random() < 0.5
             mask = None if rng.random() < 0.5 else [rng.random() < 0.6 for _ in mps]
             right = rng.random() < 0.5
-            check_canonical(ctx, tt, mpmath, mps, kind, right, chi, tol, qr, normalise, mask, add)
+            check_canonical(ctx, tt, mpmath, mps, kind, right, chi, tol, qr, normalise, mask, add, cont=cont,
+                            mkind=rng.choice(mask_containers))
             ctx.count((shape_enc(mps), kind, chi, tol, qr, normalise, mask_enc(mask), right, it),
                       ntv and bool(chi) and chi < maxb and not qr,
                       '%s %s %s' % ('rcf' if right else 'lcf', 'qr' if qr else 'svd', kind),
                       {'mps': shape_enc(mps), 'kind': kind, 'form': 'right' if right else 'left', 'chi': chi, 'tol': tol,
-                       'qr': qr, 'normalise': normalise, 'mask': mask_enc(mask)} if it in (3, 11) and rep_i == 0 else None)
+                       'qr': qr, 'normalise': normalise, 'mask': mask_enc(mask), 'container': ckind}
+                      if it in (3, 11) and rep_i == 0 else None)
         for rep_i in range(3):
             chi = rng.choice([None, 1, 2, 3, rng.randint(1, 7), max(bd, 1), max(bd - 1, 1), bd + 1, 0])
             tol = rng.choice([None, None, None, 0, 0.0, 1e-12, 1e-8, 1e-3])
             mask = None if rng.random() < 0.6 else [rng.random() < rng.choice([0.0, 0.6, 0.6]) for _ in mps]
-            check_truncate(ctx, tt, mpmath, mps, kind, chi, tol, mask, add)
+            check_truncate(ctx, tt, mpmath, mps, kind, chi, tol, mask, add, cont=cont, mkind=rng.choice(mask_containers))
             ctx.count((shape_enc(mps), kind, chi, tol, mask_enc(mask), 'truncate', it),
                       ntv and bool(chi) and chi < bd, 'truncate %s' % kind)
+        ctx.count(None, False, 'container ' + ckind)
+
+    # ---- 1b. the functions feeding / consuming the sweeps, on the same containers ------------------------------
+    for it in range(ctx.pick(400, 4000)):
+        left, kind, typ = gen_mps(rng, kind=rng.choice(['normal', 'uniform', 'ints', 'zero-tensor']), maxlen=5)
+        right = gen_partner(rng, left, typ)
+        lck, rck = rng.choice(containers), rng.choice(containers)
+        check_pairwise(ctx, tt, left, right, lck, rck)
+        ctx.count((shape_enc(left), shape_enc(right), lck, rck, it), ladder_ok(left) and len(left) >= 3,
+                  'pairwise/ladder/inner_product/zeros_like on containers')
+
+    # ---- 1c. real networks: columns passed as views tn[:, c]; partial contractions from mps2d.contract ---------------
+    from qecsim.models.generic import DepolarizingErrorModel, BitPhaseFlipErrorModel
+    from qecsim.models.planar import PlanarCode, PlanarMPSDecoder
+    for size in ctx.pick([(2, 2), (3, 3), (3, 4), (4, 3)], [(2, 2), (2, 3), (3, 3), (3, 4), (4, 3), (4, 4), (5, 5)]):
+        for rep_i in range(ctx.pick(1, 3)):
+            code = PlanarCode(*size)
+            em = rng.choice([DepolarizingErrorModel(), BitPhaseFlipErrorModel()])
+            p = rng.choice([0.05, 0.1, 0.2])
+            bits = [rng.random() < p for _ in range(2 * code.n_k_d[0])]
+            tn = PlanarMPSDecoder.TNC().create_tn(em.probability_distribution(p), code.new_pauli(np.array(bits, dtype=int)))
+            check_network(ctx, tt, mpmath, tn, 'planar %dx%d %s p=%s' % (size + (em.label, p)), add, rng, mask_containers)
 
     # ---- 2. argument validation -----------------------------------------------------------------------
     mps = [np.ones((1, 2, 2, 1)), np.ones((2, 2, 1, 1))]
@@ -531,13 +838,24 @@ def replay(path):
     mps = from_hexs(rep['mps'])
     ctx = Ctx('C12', 'quick', 0)
     sink = []
-    if rep.get('function') == 'truncate':
+    cont = Cont(mps, rep.get('container', 'list'))
+    mkind = rep.get('mask_container', 'list')
+    fnname = rep.get('function')
+    if fnname == 'truncate':
         check_truncate(ctx, tt, mpmath, mps, rep.get('kind', ''), rep.get('chi'), rep.get('tol'), rep.get('mask'),
-                       lambda *a: sink.append(a))
-    else:
-        check_canonical(ctx, tt, mpmath, mps, rep.get('kind', ''), rep.get('function') == 'right_canonical_form', rep.get('chi'),
+                       lambda *a: sink.append(a), cont=cont, mkind=mkind)
+    elif fnname in ('left_canonical_form', 'right_canonical_form'):
+        check_canonical(ctx, tt, mpmath, mps, rep.get('kind', ''), fnname == 'right_canonical_form', rep.get('chi'),
                         rep.get('tol'), rep.get('qr', False), rep.get('normalise', False), rep.get('mask'),
-                        lambda *a: sink.append(a))
+                        lambda *a: sink.append(a), cont=cont, mkind=mkind)
+    elif fnname in ('bond_dimension', 'reverse', 'zeros_like', 'contract_ladder'):
+        getattr(tt.mps, fnname)(cont.obj)
+        input_check(ctx, fnname, cont, rep)
+    elif fnname in ('contract_pairwise', 'inner_product') and 'right' in rep:
+        check_pairwise(ctx, tt, mps, from_hexs(rep['right']), rep.get('container', 'list'), rep.get('right_container', 'list'))
+    else:
+        print(json.dumps({k: v for k, v in rep.items() if k != 'mps'}, indent=1)[:3000])
+        return 0
     for v in ctx.violations:
         print('REPRODUCED:', v['key'], v['what'])
     return 1 if ctx.violations else 0
